@@ -14,6 +14,17 @@ def run_family(ctx, family, n, oracle, stream=None, known_hang=None):
     outs = engine.run_scenarios(scs)
     traces = [engine.to_trace(s, o) for s, o in zip(scs, outs)]
     answers = engine.accept_traces(traces) if ctx.lean_status.get("driver_ok") else [{"accepted": True}] * len(scs)
+    # a run that ended with a group of failures: any one of them may be the one the model's runner noticed first
+    for k, (out, tr, ans) in enumerate(zip(outs, traces, answers)):
+        i = ans.get("rejected_at") if isinstance(ans, dict) else None
+        if ans.get("accepted") is False and i is not None and i < len(tr[1]) and tr[1][i][0] == "endRun":
+            for alt in engine.end_alternatives(out, tr[1], i):
+                tr2 = (tr[0], tr[1][:i] + [alt] + tr[1][i + 1:])
+                a2 = engine.accept_traces([tr2])[0]
+                if a2.get("accepted"):
+                    traces[k], answers[k] = tr2, a2
+                    ctx.tally("endRun-named-after-another-member-of-the-failure-group")
+                    break
     maxstates = 0
     for sc, out, tr, ans in zip(scs, outs, traces, answers):
         case = {"scenario": sc}
